@@ -1514,6 +1514,11 @@ class Interp:
                 else:
                     cur -= d
                 return None
+            if isinstance(st.op, ast.Add) and h.is_list(cur):
+                # xs += ys: the items of ys at the end of the same list object
+                h.touch(cur.name)
+                h.items(cur).extend(self.seq(d))
+                return None
             if isinstance(st.op, ast.Add) and isinstance(cur, (str, SStr)) and isinstance(d, (str, SStr)):
                 self.assign(st.target, symstr.lift(cur) + symstr.lift(d) if (isinstance(cur, SStr) or isinstance(d, SStr)) else cur + d, env, cls)
                 return None
@@ -1635,7 +1640,10 @@ class Interp:
             elif h.is_list(base):
                 k = self.ev(t.slice, env, cls)
                 h.touch(base.name)
-                h.items(base)[k] = value
+                if isinstance(k, slice):
+                    h.items(base)[k] = self.seq(value)      # xs[i:j] = ys: the items of ys in place of the range
+                else:
+                    h.items(base)[k] = value
             elif isinstance(base, Ref) and h.objs[base.name]['__class__'] in h.module.classes \
                     and h.module.method(h.objs[base.name]['__class__'], '__setitem__') is not None:
                 si = h.module.method(h.objs[base.name]['__class__'], '__setitem__')
